@@ -147,7 +147,10 @@ tokFilled:
 
 	start.Head = expr
 
-	tok, err = lexer.PeekNextToken(0)
+	// pause for more input when the text so far ends here: whether a
+	// backslash (dotted pair) follows must not depend on where the
+	// text was cut into pieces.
+	tok, err = parser.ParserPeekNextToken(0)
 	if err != nil {
 		return SexpNull, err
 	}
@@ -156,12 +159,15 @@ tokFilled:
 	if tok.typ == TokenBackslash {
 		// eat up the backslash
 		_, _ = lexer.GetNextToken()
-		expr, err = parser.ParseExpression(depth + 1)
+		expr, err = parser.parseOperand(depth + 1)
 		if err != nil {
 			return SexpNull, err
 		}
 
-		// eat up the end paren
+		// eat up the end paren (waiting for it if it has not arrived yet)
+		if _, err = parser.ParserPeekNextToken(0); err != nil {
+			return SexpNull, err
+		}
 		tok, err = lexer.GetNextToken()
 		if err != nil {
 			return SexpNull, err
@@ -181,6 +187,16 @@ tokFilled:
 	start.Tail = expr
 
 	return start, nil
+}
+
+// parseOperand parses the expression a quote, syntax-quote or unquote
+// mark applies to, pausing for more input first when the text so far
+// ends right after the mark.
+func (parser *Parser) parseOperand(depth int) (Sexp, error) {
+	if _, err := parser.ParserPeekNextToken(0); err != nil {
+		return SexpNull, err
+	}
+	return parser.ParseExpression(depth)
 }
 
 func (parser *Parser) ParseArray(depth int) (Sexp, error) {
@@ -364,26 +380,26 @@ func (parser *Parser) ParseExpression(depth int) (res Sexp, err error) {
 		exp, err := parser.ParseInfix(depth + 1)
 		return exp, err
 	case TokenQuote:
-		expr, err := parser.ParseExpression(depth + 1)
+		expr, err := parser.parseOperand(depth + 1)
 		if err != nil {
 			return SexpNull, err
 		}
 		return MakeList([]Sexp{env.MakeSymbol("quote"), expr}), nil
 	case TokenCaret:
 		// '^' is now our syntax-quote symbol, not TokenBacktick, to allow go-style `string literals`.
-		expr, err := parser.ParseExpression(depth + 1)
+		expr, err := parser.parseOperand(depth + 1)
 		if err != nil {
 			return SexpNull, err
 		}
 		return MakeList([]Sexp{env.MakeSymbol("syntaxQuote"), expr}), nil
 	case TokenTilde:
-		expr, err := parser.ParseExpression(depth + 1)
+		expr, err := parser.parseOperand(depth + 1)
 		if err != nil {
 			return SexpNull, err
 		}
 		return MakeList([]Sexp{env.MakeSymbol("unquote"), expr}), nil
 	case TokenTildeAt:
-		expr, err := parser.ParseExpression(depth + 1)
+		expr, err := parser.parseOperand(depth + 1)
 		if err != nil {
 			return SexpNull, err
 		}
